@@ -44,6 +44,21 @@ SEMANTICS = [
 ]
 
 
+def repo_sources_hash(repo_root):
+    """Hash of the repository's own sources (tests excluded)."""
+    h = hashlib.sha256()
+    r = os.path.join(repo_root, "xandikos")
+    for d, dirs, files in sorted(os.walk(r)):
+        dirs[:] = sorted(x for x in dirs if x not in ("__pycache__", "tests"))
+        for f in sorted(files):
+            if f.endswith(".py"):
+                p_ = os.path.join(d, f)
+                h.update(os.path.relpath(p_, repo_root).encode())
+                with open(p_, "rb") as fh:
+                    h.update(fh.read())
+    return h.hexdigest()[:20]
+
+
 def tree_hash(repo_root, tier):
     """Hash of everything a verdict depends on: the repository sources, the contracts, pyvc."""
     h = hashlib.sha256()
@@ -193,6 +208,9 @@ def main(argv=None):
     z3_ms = 30000 if thorough else None
     cache = ResultCache(tree_hash(repo.root, args.tier))
     cache_hits = 0
+    retried = []
+    repo_now = repo_sources_hash(repo.root)
+    repo_unchanged = lock.get("__repo__", {}).get("tree") == repo_now
 
     for q in spec["functions"]:
         if q not in reg.contracts:
@@ -204,6 +222,23 @@ def main(argv=None):
             cache_hits += 1
         else:
             rep = verify_function(repo, reg, q, z3_ms=z3_ms)
+            lk = lock.get(q, {}).get("obligations", [])
+            if not rep.errors and any(r["status"] == "unknown" and r["name"] in lk for r in rep.obligations):
+                # a previously proved obligation came back `unknown`: decide it with three times
+                # the solver budgets before anything is concluded (a busy machine must not turn
+                # into a verdict)
+                from . import solve as _sv
+
+                saved = (_sv.ABS_MS, _sv.Z3_TIMEOUT_MS, _sv.CVC5_TIMEOUT_S)
+                _sv.ABS_MS, _sv.Z3_TIMEOUT_MS, _sv.CVC5_TIMEOUT_S = saved[0] * 3, saved[1] * 3, saved[2] * 2
+                try:
+                    rep2 = verify_function(repo, reg, q, z3_ms=(z3_ms or _sv.Z3_TIMEOUT_MS))
+                finally:
+                    _sv.ABS_MS, _sv.Z3_TIMEOUT_MS, _sv.CVC5_TIMEOUT_S = saved
+                if not rep2.errors:
+                    rep2.seconds += rep.seconds
+                    rep = rep2
+                    retried.append(q)
             if not rep.errors:
                 cache.put(q, report_to_dict(rep))
         solver_seconds += rep.solver_seconds
@@ -261,6 +296,12 @@ def main(argv=None):
                 checker_errors.append(f"{name}: {rec.get('reason')}")
             else:
                 undecided.append({"function": q, "obligation": name, "reason": rec.get("reason", "vacuous"), "changed": True})
+            continue
+        if rec["status"] != "refuted" and was_proved and repo_unchanged:
+            # nothing in the repository differs from the tree the lock was made on: an obligation
+            # that is `unknown` now (even with tripled budgets) is a solver-budget problem of the
+            # machinery, never a verdict about the code
+            checker_errors.append(f"{name}: proved when the lock was written, undecided now on an unchanged repository ({rec.get('reason', '')[:120]})")
             continue
         if rec["status"] == "refuted" or was_proved:
             violations.append(make_violation(pid, spec, name, ob, rec, was_proved))
@@ -346,6 +387,7 @@ def main(argv=None):
             "backends": backends,
             "solver_seconds": round(solver_seconds, 2),
             "functions_reused_from_this_run_cache": cache_hits,
+            "functions_retried_with_tripled_solver_budgets": retried,
             "samples": samples,
             "explanation": explanation or "all obligations generated from the current source were discharged",
             "undecided": undecided,
@@ -369,6 +411,7 @@ def main(argv=None):
             q = fn["qualname"]
             lock[q] = {"source_hash": fn["source_hash"],
                        "obligations": sorted(n for n, o in all_obs.items() if o["function"] == q and o["status"] == "proved")}
+        lock["__repo__"] = {"tree": repo_now}
         with open(LOCK, "w") as f:
             json.dump(lock, f, indent=1, sort_keys=True)
         print(f"lock updated for {len(functions)} functions")
